@@ -171,11 +171,11 @@ CHECKS = {
     'C22': dict(engine='pyvc+native-enum', category='other', design_ref='DESIGN.md §5 C22',
                 text='byte codec, pickle and signed/unsigned view contracts evaluated on the real classes over the listed fields and element lists',
                 note='bounded: listed fields, list lengths 0..5; GF((p,n,w)) with w outside range(p) outside the domain', technique='bounded exhaustive contract evaluation on the real functions'),
-    'C23': dict(engine='native-enum', category='other', design_ref='DESIGN.md §5 C23',
-                text='ring laws, divmod, gcd, gcdext, invert, powmod and representation agreement evaluated exhaustively on the real polynomial classes for all '
+    'C23': dict(engine='pyvc+native-enum', category='other', design_ref='DESIGN.md §5 C23',
+                text='Polynomial._neg/_add/_sub proved by engine A for all primes and coefficient lists (coefficient-wise result, representation invariant, operands unchanged); ring laws, divmod, gcd, gcdext, invert, powmod and representation agreement evaluated exhaustively on the real polynomial classes for all '
                      'polynomial pairs of bounded degree over small primes against independent reference arithmetic; found and led to repairs of powmod and reverse',
                 note='bounded: degrees and primes listed in the evidence; one known finding (BinaryPolynomial.__call__ at even x, pinned by an existing test) in known_findings.txt',
-                technique='bounded exhaustive contract evaluation on the real functions'),
+                technique='deductive verification (AST -> VCs -> z3) of the linear-time list operations + bounded exhaustive contract evaluation on the real functions'),
     'C24': dict(engine='native-enum', category='other', design_ref='DESIGN.md §5 C24',
                 text='irreducibility test, next_irreducible, find_irreducible and the GF gate evaluated for all polynomials of bounded degree over small primes against '
                      'brute-force factorisation; found and led to the repair of next_irreducible skipping x',
